@@ -1555,6 +1555,32 @@ class Qube(object):
         return self
 
     #===========================================================================
+    def _require_compatible_deriv(self, key, deriv):
+        """Raise the exception insert_deriv() would raise for this derivative,
+        without changing this object."""
+
+        if not self.DERIVS_OK:
+            raise TypeError('derivatives are disallowed in class '
+                            + type(self).__name__)
+
+        if not isinstance(deriv, Qube):
+            raise ValueError('invalid class for derivative "%s" in %s object: '
+                             '%s'
+                             % (key, type(self).__name__, type(deriv).__name__))
+
+        if self._numer_ != deriv._numer_:
+            raise ValueError('shape mismatch for numerator of derivative '
+                             '"%s" in %s object: %s, %s'
+                             % (key, type(self).__name__, deriv._numer_,
+                                self._numer_))
+
+        if Qube.broadcasted_shape(deriv._shape_, self._shape_) != self._shape_:
+            raise ValueError('shape mismatch for derivative "%s" in %s object: '
+                             '%s, %s'
+                             % (key, type(self).__name__, deriv._shape_,
+                                self._shape_))
+
+    #===========================================================================
     def insert_derivs(self, derivs, override=False):
         """Insert or replace the derivatives in this object from a dictionary.
 
@@ -1576,6 +1602,9 @@ class Qube(object):
                     raise ValueError('derivative "%s" cannot be replaced in '
                                      '%s object; object is read-only'
                                      % (key, type(self).__name__))
+
+        for (key, deriv) in derivs.items():
+            self._require_compatible_deriv(key, deriv)
 
         # Insert derivatives
         for (key, deriv) in derivs.items():
